@@ -47,7 +47,8 @@ def run(prop, tier, replay):
         tr = work / "trace.ndjson"
         tpv(["resource-run", "--seed", seed(), "--runs", nruns, "--out", tr], timeout=3000)
         runs = read_ndjson(tr)
-        if len(runs) != nruns:
+        stuck = [r for r in runs if any(e.get("timeout") is True or e["a"] in ("PauseNotObserved", "SnapshotNotAnswered", "FaultNotObserved", "NoProgressAfterFault") for e in r["ctl"])]
+        if len(runs) != nruns and len(stuck) < 3:
             raise ToolError(f"{nruns} runs requested, {len(runs)} recorded")
     accepted, rejected, tstates = validate(runs, work)
     for r, sc, sk in rejected:
